@@ -249,6 +249,7 @@ func checkAccessors(c *core.Ctx, l *core.Ledger, mod *tmpl.Model, xs map[*tmpl.T
 	checkFreshResults(c, l, "FRESH-RESULT", []string{"protocol/binary"})
 	checkWriteFailCauses(c, l)
 	checkErrKeep(c, l, "ERR-KEEP", []string{"protocol/binary", "wire", "protocol", "envelope"})
+	checkDefaultCtorExists(c, l, "DEFAULT-CTOR")
 	checkTypedefTransparent(c, l, "PRED-ROOT")
 }
 
